@@ -6,7 +6,8 @@
 From BV Require Export Base.Common Model.Drawdown.
 From Coq Require Import Qcanon String.
 
-(** observed values: a drawdown is (value, time_start, time_end); a DrawdownGenerator state is
+(** all times are nanoseconds since the epoch.
+    observed values: a drawdown is (value, time_start, time_end); a DrawdownGenerator state is
     (peak, drawdown_max, time_peak, time_now); a MeanDrawdownGenerator state is
     (count, mean_drawdown) with MeanDrawdown = (mean_drawdown, mean_drawdown_ms) *)
 Notation ddq := (Q * Z * Z)%type.
@@ -21,6 +22,14 @@ Inductive gop := GU (t : Z) (v : Q) | GG.
 Record gobs := mkGObs { go_ret : option ddq; go_state : gstate; go_gen : option ddq }.
 Inductive aop := AU (t : Z) (total free : Q) | AG.
 Inductive iop := IU (t : Z) (pnl : Q) | IG.
+(** TradingSummaryGenerator: a closed position of instrument [k], a balance of asset [k],
+    generate() *)
+Inductive sop := SP (k : nat) (t : Z) (pnl : Q) | SB (k : nat) (t : Z) (total free : Q) | SG.
+Notation istate := (Z * Q * three)%type.        (* time_engine_now, pnl_raw, the three generators *)
+Notation astate := (option balq * three)%type.  (* balance_now, the three generators *)
+Notation iobs := (option (Q * repq) * istate)%type.
+Notation aobs := (option (option balq * repq) * astate)%type.
+Notation sobs := (option (list (Q * repq) * list (option balq * repq)) * (list istate * list astate))%type.
 
 Inductive case :=
 | CGen (start : option (Z * Q)) (ops : list gop) (obs0 : gobs) (obs : list gobs)
@@ -39,6 +48,12 @@ Inductive case :=
         (obs : list (option (Q * repq) * (Z * Q * three)))
     (* TearSheetGenerator: sheet = (pnl, drawdown fields); state = (time_engine_now, pnl_raw,
        the three generators) *)
+| CSummary (t0 : Z) (n_inst : nat) (starts : list (Z * Q * Q)) (ops : list sop)
+           (obs0 : list istate * list astate) (obs : list sobs)
+    (* TradingSummaryGenerator over [n_inst] instruments (TearSheetGenerator::init t0) and the
+       assets [starts] (TearSheetAssetGenerator::init), fed interleaved; per op: every sheet of
+       the summary returned by generate() (if the op is one) and the state of EVERY tear sheet
+       generator afterwards *)
 | CPanic (scope : bool) (what : string).
     (* the implementation panicked; [scope] = the input met the property's requirement *)
 
@@ -145,6 +160,117 @@ Fixpoint inst_corr (s : inst_ts) (ops : list iop)
   | _, _ => false
   end.
 
+(* ---- TradingSummaryGenerator: per key projection + frame --------------------------------------- *)
+(** The summary routes every update to one tear sheet generator and leaves the others alone. The
+    history of key [i] is projected out of the interleaved operations (its own updates and every
+    generate()), and judged like a stand-alone tear sheet; the FRAME check says that an
+    operation addressed to another key leaves the observed state of key [i] exactly unchanged. *)
+
+Definition oq_same (x y : option Q) : bool := option_eqb Qeq_bool x y.
+Definition ddq_same (x y : ddq) : bool :=
+  Qeq_bool (fst (fst x)) (fst (fst y)) && Z.eqb (snd (fst x)) (snd (fst y)) && Z.eqb (snd x) (snd y).
+Definition three_same (x y : three) : bool :=
+  let '(pk, ddm, tp, now, (cnt, mean), mx) := x in
+  let '(pk', ddm', tp', now', (cnt', mean'), mx') := y in
+  oq_same pk pk' && Qeq_bool ddm ddm' && option_eqb Z.eqb tp tp' && Z.eqb now now' &&
+  Z.eqb cnt cnt' &&
+  option_eqb (fun a b => Qeq_bool (fst a) (fst b) && Z.eqb (snd a) (snd b)) mean mean' &&
+  option_eqb ddq_same mx mx'.
+Definition istate_same (x y : istate) : bool :=
+  let '(now, pnl, th) := x in let '(now', pnl', th') := y in
+  Z.eqb now now' && Qeq_bool pnl pnl' && three_same th th'.
+Definition astate_same (x y : astate) : bool :=
+  option_eqb (fun a b => Qeq_bool (fst a) (fst b) && Qeq_bool (snd a) (snd b)) (fst x) (fst y) &&
+  three_same (snd x) (snd y).
+
+Fixpoint proj_inst (i : nat) (ops : list sop) (obs : list sobs) : option (list iop * list iobs) :=
+  match ops, obs with
+  | [], [] => Some ([], [])
+  | op :: ops', (rep, (ist, _)) :: obs' =>
+      match proj_inst i ops' obs', nth_error ist i with
+      | Some (po, pb), Some st =>
+          match op, rep with
+          | SP k t pnl, None =>
+              if Nat.eqb k i then Some (IU t pnl :: po, (None, st) :: pb) else Some (po, pb)
+          | SB _ _ _ _, None => Some (po, pb)
+          | SG, Some (ireps, _) =>
+              match nth_error ireps i with
+              | Some r => Some (IG :: po, (Some r, st) :: pb)
+              | None => None
+              end
+          | _, _ => None
+          end
+      | _, _ => None
+      end
+  | _, _ => None
+  end.
+Fixpoint proj_asset (j : nat) (ops : list sop) (obs : list sobs) : option (list aop * list aobs) :=
+  match ops, obs with
+  | [], [] => Some ([], [])
+  | op :: ops', (rep, (_, ast)) :: obs' =>
+      match proj_asset j ops' obs', nth_error ast j with
+      | Some (po, pb), Some st =>
+          match op, rep with
+          | SB k t tot fr, None =>
+              if Nat.eqb k j then Some (AU t tot fr :: po, (None, st) :: pb) else Some (po, pb)
+          | SP _ _ _, None => Some (po, pb)
+          | SG, Some (_, areps) =>
+              match nth_error areps j with
+              | Some r => Some (AG :: po, (Some r, st) :: pb)
+              | None => None
+              end
+          | _, _ => None
+          end
+      | _, _ => None
+      end
+  | _, _ => None
+  end.
+
+Fixpoint frame_inst (i : nat) (prev : istate) (ops : list sop) (obs : list sobs) : bool :=
+  match ops, obs with
+  | op :: ops', (_, (ist, _)) :: obs' =>
+      match nth_error ist i with
+      | Some st =>
+          match op with
+          | SP k _ _ => Nat.eqb k i || istate_same prev st
+          | SB _ _ _ _ => istate_same prev st
+          | SG => true
+          end && frame_inst i st ops' obs'
+      | None => false
+      end
+  | _, _ => true
+  end.
+Fixpoint frame_asset (j : nat) (prev : astate) (ops : list sop) (obs : list sobs) : bool :=
+  match ops, obs with
+  | op :: ops', (_, (_, ast)) :: obs' =>
+      match nth_error ast j with
+      | Some st =>
+          match op with
+          | SB k _ _ _ => Nat.eqb k j || astate_same prev st
+          | SP _ _ _ => astate_same prev st
+          | SG => true
+          end && frame_asset j st ops' obs'
+      | None => false
+      end
+  | _, _ => true
+  end.
+
+Definition sum_inst_corr (t0 : Z) (ops : list sop) (obs0 : list istate * list astate) (obs : list sobs)
+           (i : nat) : bool :=
+  match nth_error (fst obs0) i, proj_inst i ops obs with
+  | Some st0, Some (po, pb) =>
+      istate_close (inst_init t0) st0 && inst_corr (inst_init t0) po pb && frame_inst i st0 ops obs
+  | _, _ => false
+  end.
+Definition sum_asset_corr (starts : list (Z * Q * Q)) (ops : list sop) (obs0 : list istate * list astate)
+           (obs : list sobs) (j : nat) : bool :=
+  match nth_error starts j, nth_error (snd obs0) j, proj_asset j ops obs with
+  | Some (t, tot, fr), Some st0, Some (po, pb) =>
+      let a := asset_init t (qc tot, qc fr) in
+      astate_close a st0 && asset_corr a po pb && frame_asset j st0 ops obs
+  | _, _, _ => false
+  end.
+
 Definition gen_start (start : option (Z * Q)) : ddgen :=
   match start with None => gen_default | Some (t, v) => gen_init (t, qc v) end.
 Definition max_start (init : option ddq) : option drawdown := option_map dd_of init.
@@ -167,6 +293,10 @@ Definition corr_b (c : case) : bool :=
       astate_close a obs0 && asset_corr a ops obs
   | CInst t0 ops obs0 obs =>
       istate_close (inst_init t0) obs0 && inst_corr (inst_init t0) ops obs
+  | CSummary t0 n starts ops obs0 obs =>
+      Nat.eqb (List.length (fst obs0)) n && Nat.eqb (List.length (snd obs0)) (List.length starts) &&
+      forallb (sum_inst_corr t0 ops obs0 obs) (seq 0 n) &&
+      forallb (sum_asset_corr starts ops obs0 obs) (seq 0 (List.length starts))
   | CPanic _ _ => false
   end.
 
@@ -244,25 +374,6 @@ Fixpoint inst_prop (raw : Qc) (pts : list pt) (ops : list iop)
   | _, _ => false
   end.
 
-Definition start_list (init : option ddq) : list drawdown := opt_list (option_map dd_of init).
-
-Definition prop_b (c : case) : bool :=
-  match c with
-  | CGen start ops obs0 obs =>
-      let pts0 := match start with None => [] | Some (t, v) => [(t, qc v)] end in
-      opt_b dd_close None (go_ret obs0) && opt_b dd_close (current pts0) (go_gen obs0) &&
-      gen_prop pts0 [] ops obs
-  | CMax init ds obs0 obs =>
-      max_ok dd_exact (start_list init) (fst obs0) && max_ok dd_exact (start_list init) (snd obs0) &&
-      max_prop (start_list init) ds obs
-  | CMean init ds obs0 obs =>
-      mean_ok (start_list init) (snd (fst obs0)) && mean_ok (start_list init) (snd obs0) &&
-      mean_prop (start_list init) ds obs
-  | CAsset (t, tot, _) ops _ obs => asset_prop [(t, qc tot)] ops obs
-  | CInst _ ops _ obs => inst_prop 0%Qc [] ops obs
-  | CPanic _ _ => false
-  end.
-
 (** the property's input requirement: positive running maxima = the first value of the curve is
     positive (cases outside it are exercised by the harness but not judged) *)
 Definition first_gen_value (start : option (Z * Q)) (ops : list gop) : option Q :=
@@ -280,6 +391,41 @@ Definition first_inst_value (ops : list iop) : option Q :=
   end.
 Definition positive (o : option Q) : bool :=
   match o with Some v => negb (Qle_bool v 0) | None => true end.
+(** a key of a summary is judged when ITS curve starts positive *)
+Definition sum_inst_prop (ops : list sop) (obs : list sobs) (i : nat) : bool :=
+  match proj_inst i ops obs with
+  | Some (po, pb) => if positive (first_inst_value po) then inst_prop 0%Qc [] po pb else true
+  | None => false
+  end.
+Definition sum_asset_prop (starts : list (Z * Q * Q)) (ops : list sop) (obs : list sobs) (j : nat) : bool :=
+  match nth_error starts j, proj_asset j ops obs with
+  | Some (t, tot, _), Some (po, pb) =>
+      if positive (Some tot) then asset_prop [(t, qc tot)] po pb else true
+  | _, _ => false
+  end.
+
+Definition start_list (init : option ddq) : list drawdown := opt_list (option_map dd_of init).
+
+Definition prop_b (c : case) : bool :=
+  match c with
+  | CGen start ops obs0 obs =>
+      let pts0 := match start with None => [] | Some (t, v) => [(t, qc v)] end in
+      opt_b dd_close None (go_ret obs0) && opt_b dd_close (current pts0) (go_gen obs0) &&
+      gen_prop pts0 [] ops obs
+  | CMax init ds obs0 obs =>
+      max_ok dd_exact (start_list init) (fst obs0) && max_ok dd_exact (start_list init) (snd obs0) &&
+      max_prop (start_list init) ds obs
+  | CMean init ds obs0 obs =>
+      mean_ok (start_list init) (snd (fst obs0)) && mean_ok (start_list init) (snd obs0) &&
+      mean_prop (start_list init) ds obs
+  | CAsset (t, tot, _) ops _ obs => asset_prop [(t, qc tot)] ops obs
+  | CInst _ ops _ obs => inst_prop 0%Qc [] ops obs
+  | CSummary _ n starts ops _ obs =>
+      forallb (sum_inst_prop ops obs) (seq 0 n) &&
+      forallb (sum_asset_prop starts ops obs) (seq 0 (List.length starts))
+  | CPanic _ _ => false
+  end.
+
 Definition in_scope (c : case) : bool :=
   match c with
   | CGen start ops _ _ => positive (first_gen_value start ops)
